@@ -25,6 +25,8 @@ ASSUMPTIONS = [
     'refwire PeerTable rebuilds the remote table from the bytes of the session that is up after the reload',
     'bounded liveness: 30 virtual seconds to re-establish and drain, otherwise inconclusive',
     'a failed reload is recognised by Reactor.reload() returning False (recorded by wrapping it)',
+    'one case in three runs with "adj-rib-out false" + "route-refresh disable" (no Adj-RIB-Out kept); for those the neighbor definition is left unchanged '
+    'and the session is up at reload time (a session started after a failed or closed one announces nothing again without an Adj-RIB-Out, by the meaning of the option: Peer._reset drains the RIB) and an API route is optional on a session established after it was announced',
 ]
 
 PREFIXES = ['70.0.0.0/24', '70.0.1.0/24', '70.0.2.0/24', '70.0.3.0/24', '2001:db8:70::/48']
@@ -38,14 +40,16 @@ def route_line(p: int, med: int, nh: int) -> str:
     return f'route {prefix} next-hop {NHS[fam][nh]} med {med}'
 
 
-def render(neighbors: list[dict]) -> str:
+def render(neighbors: list[dict], ribout: bool = True) -> str:
+    """ribout False = a neighbor that keeps no Adj-RIB-Out (it needs route-refresh off, otherwise the configuration turns it back on)"""
     text = nh.process_section()
+    rib = 'adj-rib-out true;\n  capability {\n    asn4 enable;\n    route-refresh enable;\n  }' if ribout else 'adj-rib-out false;\n  capability {\n    asn4 enable;\n    route-refresh disable;\n  }'
     for nb in neighbors:
         peer = PEERS[nb['peer']]
         body = nh.api_section(changes=True) + '\n  static {\n' + '\n'.join(f'    {route_line(*r)};' for r in nb['routes']) + '\n  }'
         text += (
             f'neighbor {peer["ip"]} {{\n  router-id 10.0.0.5;\n  local-address 127.0.0.1;\n  local-as 65000;\n  peer-as {peer["as"]};\n  hold-time {nb["hold"]};\n'
-            f'  adj-rib-out true;\n  capability {{\n    asn4 enable;\n    route-refresh enable;\n  }}\n  family {{\n    ipv4 unicast;\n    ipv6 unicast;\n  }}\n{body}\n}}\n'
+            f'  {rib}\n  family {{\n    ipv4 unicast;\n    ipv6 unicast;\n  }}\n{body}\n}}\n'
         )
     return text
 
@@ -96,15 +100,23 @@ def cases(draw):
     if n_old == 1 and draw(st.integers(0, 3)) == 0:
         new.append({'peer': 1, 'hold': 30, 'routes': draw(route_set())})
     api = [list(a) for a in draw(st.lists(st.tuples(st.integers(0, 2), st.integers(1, 3)), max_size=3, unique_by=lambda a: a[0]))]
+    ribout = draw(st.sampled_from([True, True, False]))
+    if not ribout:
+        # a neighbor told to keep no Adj-RIB-Out has nothing to send again on a new session (that is what the option means):
+        # only the path that keeps the session (neighbor definition unchanged) is in the domain for it
+        for nb in new:
+            nb['hold'] = 30
+    session_up = draw(st.sampled_from([True, True, False])) if ribout else True
     return {
         'old': old,
         'new': new,
         'break': draw(st.sampled_from([None, None, None] + BREAKS)),
         'break_at': draw(st.integers(0, 10000)),
-        'session_up': draw(st.sampled_from([True, True, False])),
+        'session_up': session_up,
         'api': api,
         'via': draw(st.sampled_from(['signal', 'signal', 'api'])),
         'then_valid_reload': draw(st.booleans()),
+        'ribout': ribout,
     }
 
 
@@ -146,8 +158,9 @@ def check(case: dict) -> dict:
     tmp = os.path.join(os.environ.get('VERIF_TMP') or os.path.join(os.path.dirname(os.path.dirname(os.path.abspath(__file__))), '.work'), f'c17-{os.getpid()}')
     os.makedirs(tmp, exist_ok=True)
     path = os.path.join(tmp, 'exabgp.conf')
-    old_text = render(case['old'])
-    new_text = render(case['new'])
+    ribout = case.get('ribout', True)
+    old_text = render(case['old'], ribout)
+    new_text = render(case['new'], ribout)
     with open(path, 'w') as fh:
         fh.write(old_text)
 
@@ -247,12 +260,14 @@ def check(case: dict) -> dict:
                     ip = PEERS[nb['peer']]['ip']
                     r = sessions.get(ip)
                     if r is None or r.closed_at is not None or r.local_closed_at is not None:
+                        out.setdefault('reestablished', []).append(ip)
                         r = await bring_up(hn, runner, ip)
                         if r is None:
                             raise Inconclusive(f'{ip} did not (re-)establish after the reload')
                     await hn.sleep(3.0)
                     if r.closed_at is not None:
                         # torn down for re-establishment after we looked: take the next session
+                        out.setdefault('reestablished', []).append(ip)
                         r = await bring_up(hn, runner, ip)
                         if r is None:
                             raise Inconclusive(f'{ip} did not re-establish after the reload')
@@ -297,7 +312,7 @@ def check(case: dict) -> dict:
             pass
 
     kind = case['break']
-    classes = [f'new:{kind or "valid"}', f'session-up:{case["session_up"]}', f'via:{case["via"]}']
+    classes = [f'new:{kind or "valid"}', f'session-up:{case["session_up"]}', f'via:{case["via"]}', f'adj-rib-out:{case.get("ribout", True)}']
     if out['reload_ok']:
         if kind in ('missing', 'directory'):
             raise Violation(f'reload:accepted-{kind}-file', 'reload reported success')
@@ -312,6 +327,11 @@ def check(case: dict) -> dict:
                 for p, med in case['api']:
                     want[API_PREFIX[p]] = (med, '1.2.3.4')
             got = out['tables'][ip]
+            if not case.get('ribout', True) and ip in out.get('reestablished', []):
+                # without an Adj-RIB-Out nothing remembers an API route over a new session: holding it or not are both right
+                for k in API_PREFIX:
+                    if k in want and k not in got:
+                        del want[k]
             if got != want:
                 missing = sorted(set(want) - set(got))
                 extra = sorted(set(got) - set(want))
